@@ -58,6 +58,21 @@ package core
 //      does not name the declaring gang; group changes of annotation gangs (they are initialised
 //      once) and of groups that contain one; terminated pod phases; network-topology and
 //      preemption paths.
+//  S7  The gang scheduling context. In 60% of the generated cases (and in the scripts marked ctx) the
+//      plugin's context machinery is part of the run, as in the real scheduling loop
+//      (frameworkext runNextPodPlugin): every iteration first asks NextPod, which hands out the
+//      not yet attempted pending pods of the group whose scheduling round is in progress and, when
+//      none is left, rejects that group's waiting members and closes the round; only then a pod is
+//      popped from the queue, where it got through PreEnqueue; every cycle runs BeforePreFilter
+//      (the first pod of a group opens the round; a refusal is a fit error, so AfterPostFilter
+//      runs); Permit=Success calls SucceedGangScheduling. Wake-ups, Unreserve and PostBind of
+//      earlier pods belong to their binding goroutines and arrive between (conc: during) the
+//      iterations - also while the round of ANOTHER group is in progress and has members waiting.
+//      A pod NextPod hands out that the harness would not pop itself (bound at the API but still
+//      pending in the cache; an older incarnation of its name owes an Unreserve) gets the outcome
+//      that is always possible, "no node fits". In the other cases the machinery is left out (no
+//      context is ever installed, DESIGN's abstraction): waiting members then survive until a
+//      release, a roll-back or a timeout, which is what loads oracles (1) and (3) most.
 //  G1  The gang-groups annotation (pod annotation or PodGroup annotation). A gang that names no
 //      other gang is its own group, however that is spelled: annotation absent, "", "null", "[]",
 //      illegal JSON, or a list naming only the gang itself. A list may name a gang that never
@@ -91,6 +106,11 @@ package core
 //  (3) strict mode: after Unreserve / AfterPostFilter of a member of a strict gang that is not
 //      (once-satisfied and already satisfied), every pod in the waiting map that belongs to a
 //      (strict) gang of the group that gang currently declares has received a Reject.
+//      "Otherwise it waits": every Reject the plugin issues during the roll-back of p goes to a pod
+//      of a gang that p's gang currently declares - a waiting member of a group without a failed
+//      member is not thrown out of Permit by somebody else's failure (reject-outside-group). The
+//      rejections at the end of a scheduling round (NextPod) stay inside the set of gangs related
+//      to the gang that opened the round (lenient).
 //  (4) partition: in GetGangSummaries() Pending, WaitingForBind, Bound are pairwise disjoint, their
 //      union is Children, and each equals the shadow set. After every operation (seq), at the
 //      quiescent points between phases (conc).
@@ -130,6 +150,7 @@ import (
 	metav1 "k8s.io/apimachinery/pkg/apis/meta/v1"
 	"k8s.io/apimachinery/pkg/types"
 	"k8s.io/apimachinery/pkg/util/sets"
+	k8sfeature "k8s.io/apiserver/pkg/util/feature"
 	"k8s.io/client-go/tools/cache"
 	"k8s.io/klog/v2"
 	fwktype "k8s.io/kube-scheduler/framework"
@@ -137,6 +158,7 @@ import (
 
 	"github.com/koordinator-sh/koordinator/apis/extension"
 	"github.com/koordinator-sh/koordinator/apis/thirdparty/scheduler-plugins/pkg/apis/scheduling/v1alpha1"
+	"github.com/koordinator-sh/koordinator/pkg/features"
 	"github.com/koordinator-sh/koordinator/pkg/scheduler/apis/config"
 	"github.com/koordinator-sh/koordinator/pkg/scheduler/frameworkext"
 	"github.com/koordinator-sh/koordinator/pkg/scheduler/frameworkext/workloadauditor"
@@ -194,6 +216,15 @@ type c04Handle struct {
 	events  []c04Ev
 }
 
+type c04NodeLister struct{ fwktype.NodeInfoLister }
+
+func (c04NodeLister) List() ([]fwktype.NodeInfo, error) { return nil, nil }
+
+type c04Lister struct{ fwktype.SharedLister }
+
+func (c04Lister) NodeInfos() fwktype.NodeInfoLister { return c04NodeLister{} }
+
+func (h *c04Handle) SnapshotSharedLister() fwktype.SharedLister          { return c04Lister{} }
 func (h *c04Handle) Scheduler() frameworkext.Scheduler                   { return nil }
 func (h *c04Handle) GetWorkloadAuditor() workloadauditor.WorkloadAuditor { return nil }
 
@@ -500,6 +531,12 @@ type c04U struct {
 	lastPermit Status
 
 	staleReported bool
+
+	// ctxMode: the gang scheduling context machinery of the plugin is part of the run (S7): every
+	// scheduler iteration starts with NextPod, pods popped from the queue pass PreEnqueue, every
+	// cycle runs BeforePreFilter, Permit=Success calls SucceedGangScheduling.
+	ctxMode bool
+	ctxGang *c04Gang // gang of the pod whose BeforePreFilter installed the current context (scheduler goroutine only)
 }
 
 func c04Pick[T any](u *c04U, cand []T, a int, key func(T) string) (T, bool) {
@@ -605,9 +642,10 @@ func c04NewUniverse(c *kit.Case, conc bool) *c04U {
 		AwareNetworkTopology: &f,
 	}
 	u.mgr = &PodGroupManager{handle: u.h, args: args, cache: NewGangCache(args, nil, nil, nil, u.h)}
+	u.ctxMode = r.Pct(60)
 	ngroups := 1
-	if r.Pct(45) {
-		ngroups = 2
+	if r.Pct(45) || (u.ctxMode && r.Pct(50)) {
+		ngroups = 2 // roll-backs of one group during the scheduling round of another need two
 	}
 	gi := 0
 	for k := 0; k < ngroups; k++ {
@@ -660,7 +698,7 @@ func c04NewUniverse(c *kit.Case, conc bool) *c04U {
 }
 
 func (u *c04U) describe() string {
-	s := ""
+	s := fmt.Sprintf("scheduling-context machinery=%v; ", u.ctxMode)
 	for _, g := range u.gangs {
 		src := "annotation"
 		if g.crd {
@@ -1418,41 +1456,164 @@ func (u *c04U) checkAllows(evs []c04Ev, by *c04Pod, s c04Snap, how string) *c04V
 	return nil
 }
 
-// cycle: one scheduling cycle (S1-S3). between: informer intents to run between gate and call (seq).
-func (u *c04U) cycle(a int, nodeFound bool, between []c04Intent) bool {
-	summ := u.mgr.GetGangSummaries()
+// rejectTargets: every Reject the plugin issued during the roll-back (Unreserve / AfterPostFilter) of
+// p went to a pod of a gang that p's gang currently declares. "Otherwise it waits": the plugin ends
+// the wait of a member only by a release, through a failure in the member's own group, or at the
+// end of that group's own scheduling round - never because a member of an unrelated group failed.
+func (u *c04U) rejectTargets(p *c04Pod, after string, evs []c04Ev) *c04Verdict {
 	u.mu.Lock()
-	var cand []*c04Pod
-	closed := 0
-	for _, p := range u.pods {
-		if u.eligibleLocked(p) {
-			if c04Gate(summ, p.gang.id) {
-				cand = append(cand, p)
-			} else {
-				closed++
+	defer u.mu.Unlock()
+	decl := u.declLocked(p.gang)
+	for _, e := range evs {
+		if e.allow {
+			continue
+		}
+		if g := e.wp.p.gang; !c04Has(decl, g.id) {
+			return &c04Verdict{"C04/strict/reject-outside-group",
+				fmt.Sprintf("%s of %s (gang %s declares the group %v) rejected waiting pod %s of gang %s, which is not in that group and had no failed member", after, p.key, p.gang.id, decl, e.wp.p.key, g.id)}
+		}
+	}
+	return nil
+}
+
+// nextPod runs the plugin's NextPod as the scheduling loop does before every pop (S7). When the round
+// of the current context is over it rejects the context's gang group: those rejections must stay
+// inside the set of gangs related to the gang that opened the round (lenient: the context keeps the
+// group as declared when the round began).
+func (u *c04U) nextPod() *c04Pod {
+	np := u.mgr.NextPod()
+	evs := u.h.drain()
+	ended := u.ctxGang != nil && u.mgr.holder.getCurrentGangSchedulingContext() == nil
+	var v *c04Verdict
+	u.mu.Lock()
+	rejects := 0
+	for _, e := range evs {
+		if e.allow {
+			v = &c04Verdict{"C04/release/allow-outside-permit", fmt.Sprintf("NextPod allowed waiting pod %s", e.wp.p.key)}
+			continue
+		}
+		rejects++
+		if u.ctxGang != nil && u.find(e.wp.p.gang.idx) != u.find(u.ctxGang.idx) && v == nil {
+			v = &c04Verdict{"C04/strict/nextpod-reject-outside-group", fmt.Sprintf("the end of the scheduling round opened by gang %s rejected waiting pod %s of gang %s, which was never declared together with it", u.ctxGang.id, e.wp.p.key, e.wp.p.gang.id)}
+		}
+	}
+	var p *c04Pod
+	if np != nil {
+		for _, q := range u.pods {
+			if q.uid == np.UID {
+				p = q
 			}
 		}
 	}
 	u.mu.Unlock()
-	if len(cand) == 0 {
-		if closed > 0 {
-			u.c.Count("cycles_refused_by_prefilter_gate", 1)
-		}
-		return false
+	if ended {
+		u.op("S", "NextPod: the scheduling round of gang %s is over (every pending pod attempted); %s", u.ctxGang.id, c04Evs(evs))
+		u.c.Count("scheduling_rounds_ended_by_nextpod", 1)
+		u.ctxGang = nil
 	}
-	p, found := c04Pick(u, cand, a, c04PodKey)
-	if !found {
-		return false
+	if rejects > 0 {
+		u.c.Count("nextpod_reject_calls", rejects)
+		u.rejected = true
+	}
+	u.fail(v)
+	if np != nil && p == nil {
+		u.c.Harness("NextPod returned pod %s/%s uid=%s which the harness never created", np.Namespace, np.Name, np.UID)
+	}
+	return p
+}
+
+// cycle: one iteration of the scheduling loop (S1-S3, S7). between: informer intents to run between
+// gate and call (seq).
+func (u *c04U) cycle(a int, nodeFound bool, between []c04Intent) bool {
+	var p *c04Pod
+	fromNext := false
+	if u.ctxMode {
+		if p = u.nextPod(); p != nil {
+			fromNext = true
+			u.c.Count("cycles_for_pod_chosen_by_nextpod", 1)
+			if u.force != "" && p.key != u.force {
+				u.c.Harness("the script expects a cycle for %s but NextPod chose %s", u.force, p.key)
+			}
+		}
+	}
+	if p == nil {
+		summ := u.mgr.GetGangSummaries()
+		u.mu.Lock()
+		var cand []*c04Pod
+		closed := 0
+		for _, q := range u.pods {
+			if u.eligibleLocked(q) {
+				if c04Gate(summ, q.gang.id) {
+					cand = append(cand, q)
+				} else {
+					closed++
+				}
+			}
+		}
+		u.mu.Unlock()
+		if len(cand) == 0 {
+			if closed > 0 {
+				u.c.Count("cycles_refused_by_prefilter_gate", 1)
+			}
+			return false
+		}
+		var found bool
+		if p, found = c04Pick(u, cand, a, c04PodKey); !found {
+			return false
+		}
 	}
 	if u.conc {
 		p.cycleMu.Lock()
 		defer p.cycleMu.Unlock()
-		u.mu.Lock()
-		ok := u.eligibleLocked(p)
-		u.mu.Unlock()
-		if !ok {
+	}
+	u.mu.Lock()
+	ok := u.eligibleLocked(p)
+	gone := !p.known()
+	pod := p.obj
+	u.mu.Unlock()
+	if !ok {
+		if !fromNext || gone {
+			// the pod was deleted under the scheduler's hands: the scheduler skips it
 			u.c.Count("cycles_lost_to_concurrent_delete", 1)
-			return false
+			return fromNext
+		}
+		// NextPod hands out what the gang lists as pending; a pod the harness would not pop itself
+		// (already bound at the API, or an older incarnation of its name still owes an Unreserve) gets
+		// the outcome that is always possible: no node fits
+		nodeFound = false
+		u.c.Count("cycles_for_nextpod_choice_forced_to_no_fit", 1)
+	}
+	if u.ctxMode {
+		if !fromNext {
+			// popped from the queue: it got there through PreEnqueue
+			if err := u.mgr.PreEnqueue(u.ctx, pod); err != nil {
+				u.op("S", "pop %s: refused by PreEnqueue (%v)", p.key, err)
+				u.c.Count("cycles_refused_by_preenqueue", 1)
+				return true
+			}
+		}
+		st := framework.NewCycleState()
+		frameworkext.InitDiagnosis(st, pod)
+		had := u.mgr.holder.getCurrentGangSchedulingContext() != nil
+		err := u.mgr.BeforePreFilter(u.ctx, st, pod)
+		if !had && u.mgr.holder.getCurrentGangSchedulingContext() != nil {
+			u.ctxGang = p.gang
+			u.c.Count("scheduling_rounds_opened", 1)
+			u.op("S", "cycle %s: BeforePreFilter opens the scheduling round of gang %s", p.key, p.gang.id)
+		}
+		if err != nil {
+			// PreFilter rejection is a fit error: PostFilter and with it AfterPostFilter run
+			u.mu.Lock()
+			snap := u.snapLocked()
+			u.mu.Unlock()
+			u.mgr.AfterPostFilter(u.ctx, st, pod, u.h, c04Plugin, nil, fwktype.NewStatus(fwktype.Unschedulable, "prefilter"))
+			evs := u.h.drain()
+			u.op("S", "cycle %s: BeforePreFilter refuses (%.80s) -> AfterPostFilter; %s", p.key, err.Error(), c04Evs(evs))
+			u.c.Count("cycles_refused_by_beforeprefilter", 1)
+			u.fail(u.checkAllows(evs, nil, snap, "AfterPostFilter"))
+			u.fail(u.rejectTargets(p, "AfterPostFilter", evs))
+			u.fail(u.strict(p, "AfterPostFilter", evs))
+			return true
 		}
 	}
 	for _, it := range between {
@@ -1460,7 +1621,7 @@ func (u *c04U) cycle(a int, nodeFound bool, between []c04Intent) bool {
 		u.c.Count("informer_events_between_gate_and_permit", 1)
 	}
 	u.mu.Lock()
-	pod := p.obj
+	pod = p.obj
 	snap := u.snapLocked()
 	u.mu.Unlock()
 	if !nodeFound {
@@ -1471,6 +1632,7 @@ func (u *c04U) cycle(a int, nodeFound bool, between []c04Intent) bool {
 		u.op("S", "cycle %s: no node fits -> AfterPostFilter; %s", p.key, c04Evs(evs))
 		u.c.Count("op_afterpostfilter", 1)
 		u.fail(u.checkAllows(evs, nil, snap, "AfterPostFilter"))
+		u.fail(u.rejectTargets(p, "AfterPostFilter", evs))
 		u.fail(u.strict(p, "AfterPostFilter", evs))
 		return true
 	}
@@ -1480,6 +1642,8 @@ func (u *c04U) cycle(a int, nodeFound bool, between []c04Intent) bool {
 	switch status {
 	case Success:
 		u.mgr.AllowGangGroup(pod, u.h, c04Plugin)
+		u.mgr.SucceedGangScheduling() // coscheduling.go Permit, case Success
+		u.ctxGang = nil
 		evs := u.h.drain()
 		u.mu.Lock()
 		p.held = true
@@ -1567,7 +1731,26 @@ func (u *c04U) unreserve(p *c04Pod, why string) {
 			}
 		}
 	}
+	decl := u.declLocked(p.gang)
 	u.mu.Unlock()
+	// evidence: the roll-back arrives (from the pod's binding goroutine) while the scheduling
+	// goroutine is in the middle of the scheduling round of ANOTHER gang group
+	otherRound, ownWaiter, ownFresh, otherWaiter := "", false, false, false
+	if gsc := u.mgr.holder.getCurrentGangSchedulingContext(); gsc != nil && !gsc.gangGroup.Has(p.gang.id) {
+		otherRound = gsc.gangGroupID
+		ws, _, rej := u.h.list()
+		for i, w := range ws {
+			if c04Has(decl, w.p.gang.id) {
+				ownWaiter = true
+				if !rej[i] {
+					ownFresh = true
+				}
+			}
+			if gsc.gangGroup.Has(w.p.gang.id) {
+				otherWaiter = true
+			}
+		}
+	}
 	u.mgr.Unreserve(u.ctx, framework.NewCycleState(), pod, "n1", u.h, c04Plugin)
 	evs := u.h.drain()
 	u.mu.Lock()
@@ -1575,6 +1758,16 @@ func (u *c04U) unreserve(p *c04Pod, why string) {
 	p.fw = 0
 	p.wp = nil
 	u.mu.Unlock()
+	if otherRound != "" {
+		u.op("S", "(the scheduling round of group %s is in progress; waiting: own group %v, never rejected %v, that group %v)", otherRound, ownWaiter, ownFresh, otherWaiter)
+		u.c.Count("unreserve_during_round_of_other_group", 1)
+		if ownWaiter && otherWaiter {
+			u.c.Count("unreserve_during_round_of_other_group_waiters_on_both_sides", 1)
+		}
+		if ownFresh && otherWaiter {
+			u.c.Count("unreserve_during_round_of_other_group_unrejected_own_waiter", 1)
+		}
+	}
 	u.op("S", "%s %s -> Unreserve; %s", why, p.key, c04Evs(evs))
 	u.c.Count("op_unreserve", 1)
 	if partial {
@@ -1584,6 +1777,7 @@ func (u *c04U) unreserve(p *c04Pod, why string) {
 		u.c.Count("unreserve_after_bound_event", 1)
 	}
 	u.fail(u.checkAllows(evs, nil, snap, "Unreserve"))
+	u.fail(u.rejectTargets(p, "Unreserve", evs))
 	u.fail(u.strict(p, "Unreserve", evs))
 }
 
@@ -1931,12 +2125,26 @@ func (u *c04U) finish() {
 	}
 }
 
+// c04Gates: AfterPostFilter's optional patching of PodScheduled conditions on other pending pods
+// (GangPendingPodsConditionPatch) talks to the API server through the handle's client and
+// parallelizer; it does not touch the gang state and is switched off for the run.
+func c04Gates(t *testing.T) {
+	was := k8sfeature.DefaultFeatureGate.Enabled(features.GangPendingPodsConditionPatch)
+	if err := k8sfeature.DefaultMutableFeatureGate.SetFromMap(map[string]bool{string(features.GangPendingPodsConditionPatch): false}); err != nil {
+		t.Fatalf("feature gate: %v", err)
+	}
+	t.Cleanup(func() {
+		_ = k8sfeature.DefaultMutableFeatureGate.SetFromMap(map[string]bool{string(features.GangPendingPodsConditionPatch): was})
+	})
+}
+
 // ---------------------------------------------------------------------------------------------
 // unit seq
 
 func TestVerifC04Seq(t *testing.T) {
+	c04Gates(t)
 	kit.Run(t, kit.Config{Property: "C04", Unit: "seq", Quick: 3500, Thorough: 150000,
-		Rule: "sequential histories of 60-150 operations over 1-2 gang groups of 1-3 gangs (min 1-3, 2-5 pod slots, strict / non-strict, three match policies, annotation and PodGroup sources): API create/touch/delete of pods with lagging in-order informer delivery (stale updates after PostBind on purpose), PodGroup add / delete / updates of the spec (min, timeout) and annotation-only updates (match policy, mode, gang-group list - a gang leaves or joins a group, one event per PodGroup - and its spelling), gang-groups annotations in every degenerate spelling (absent, \"\", null, [], illegal JSON, self only, naming a gang that never exists), scheduling cycles (gate, Permit + AllowGangGroup, AfterPostFilter), wake-ups of signalled waiting pods, permit timeouts, bind success (PostBind) / failure (Unreserve) / applied-but-reported-failed (bound update before or after the Unreserve); oracles (1)(3) at every scheduler call, (4) after every operation; distinct = (policy, mode, per-gang min / waiting / bound counts) at each Permit decision; non-trivial = case with a release, a wait and a group rejection"},
+		Rule: "sequential histories of 60-150 operations over 1-2 gang groups of 1-3 gangs (min 1-3, 2-5 pod slots, strict / non-strict, three match policies, annotation and PodGroup sources): API create/touch/delete of pods with lagging in-order informer delivery (stale updates after PostBind on purpose), PodGroup add / delete / updates of the spec (min, timeout) and annotation-only updates (match policy, mode, gang-group list - a gang leaves or joins a group, one event per PodGroup - and its spelling), gang-groups annotations in every degenerate spelling (absent, \"\", null, [], illegal JSON, self only, naming a gang that never exists), scheduling cycles (gate, Permit + AllowGangGroup, AfterPostFilter; in 60% of the cases with the plugin's scheduling-context machinery: NextPod first, PreEnqueue for popped pods, BeforePreFilter, SucceedGangScheduling, so that roll-backs of one group arrive during the scheduling round of another), wake-ups of signalled waiting pods, permit timeouts, bind success (PostBind) / failure (Unreserve) / applied-but-reported-failed (bound update before or after the Unreserve); oracles (1)(3) at every scheduler call, (4) after every operation; distinct = (policy, mode, per-gang min / waiting / bound counts) at each Permit decision; non-trivial = case with a release, a wait and a group rejection"},
 		func(c *kit.Case) {
 			u := c04NewUniverse(c, false)
 			u.op("-", "universe %s", u.describe())
@@ -2016,6 +2224,7 @@ func c04PanicInHarness(stack string) (string, bool) {
 }
 
 func TestVerifC04Conc(t *testing.T) {
+	c04Gates(t)
 	kit.Run(t, kit.Config{Property: "C04", Unit: "conc", Quick: 1000, Thorough: 45000,
 		Rule: "the same universes; a pre-generated history of 80-160 intents is split into the informer's half (pod create/touch/deliver/delete, PodGroup add / no-change update) and the scheduler's half (cycles, wake-ups, timeouts, bind results incl. applied-but-reported-failed with its late Unreserve) which run on two goroutines in 3 phases under the race detector with random yields between operations and at the entry of the Gang set transitions; oracles (1)(3) online at the scheduler goroutine against window bounds of the shadow truth, (4) at the quiescent point after each phase; distinct = Permit decision states plus the observed interleaving of each phase; non-trivial = case with a release, a wait and a group rejection"},
 		func(c *kit.Case) {
@@ -2125,6 +2334,7 @@ type c04Script struct {
 	name  string
 	gangs []c04GangSpec
 	reprs []int // optional: how gang i spells its gang-groups annotation (gangs on their own only)
+	ctx   bool  // run with the gang scheduling context machinery (S7); the script then has to follow NextPod's order
 	steps []c04Step
 }
 
@@ -2199,6 +2409,18 @@ var c04Scripts = []c04Script{
 		gangs: []c04GangSpec{{0, false, 1, 2, c04S, c04W}},
 		steps: []c04Step{{"create", "g0-p0", ""}, {"deliver", "g0-p0", ""}, {"permit", "g0-p0", Success}, {"bindlost", "g0-p0", ""}, {"deliver", "g0-p0", ""}, {"unreserve", "g0-p0", ""},
 			{"create", "g0-p1", ""}, {"deliver", "g0-p1", ""}, {"permit", "g0-p1", Success}, {"bindlost", "g0-p1", ""}, {"unreserve", "g0-p1", ""}, {"deliver", "g0-p1", ""}}},
+	{name: "scheduling context: a bind failure in released group X arrives while the round of group Y is in progress; X's allowed-but-not-yet-woken member is rejected, Y's waiting member is not",
+		ctx:   true,
+		gangs: []c04GangSpec{{0, false, 2, 2, c04S, c04W}, {1, false, 2, 2, c04S, c04W}},
+		steps: []c04Step{{"create", "g0-p0", ""}, {"create", "g0-p1", ""}, {"create", "g1-p0", ""}, {"create", "g1-p1", ""}, {"deliver", "g0-p0", ""}, {"deliver", "g0-p1", ""}, {"deliver", "g1-p0", ""}, {"deliver", "g1-p1", ""},
+			{"permit", "g0-p0", Wait}, {"permit", "g0-p1", Success}, {"permit", "g1-p0", Wait}, {"bindfail", "g0-p1", ""}, {"wake", "g0-p0", ""}, {"bindok", "g0-p0", ""},
+			{"permit", "g1-p1", Success}, {"wake", "g1-p0", ""}, {"bindok", "g1-p0", ""}, {"bindok", "g1-p1", ""}}},
+	{name: "scheduling context: the round of a group ends without release (no node fits for its last member), NextPod rejects its waiting member; the roll-back arrives during the next group's round",
+		ctx:   true,
+		gangs: []c04GangSpec{{0, false, 2, 2, c04S, c04W}, {1, false, 2, 2, c04S, c04W}},
+		steps: []c04Step{{"create", "g0-p0", ""}, {"create", "g0-p1", ""}, {"create", "g1-p0", ""}, {"create", "g1-p1", ""}, {"deliver", "g0-p0", ""}, {"deliver", "g0-p1", ""}, {"deliver", "g1-p0", ""}, {"deliver", "g1-p1", ""},
+			{"permit", "g0-p0", Wait}, {"nofit", "g0-p1", ""}, {"permit", "g1-p0", Wait}, {"wake", "g0-p0", ""},
+			{"permit", "g1-p1", Success}, {"wake", "g1-p0", ""}, {"bindok", "g1-p0", ""}, {"bindok", "g1-p1", ""}}},
 }
 
 func c04ScriptUniverse(c *kit.Case, sc c04Script) *c04U {
@@ -2228,12 +2450,14 @@ func c04ScriptUniverse(c *kit.Case, sc c04Script) *c04U {
 }
 
 func TestVerifC04Scripted(t *testing.T) {
+	c04Gates(t)
 	n := len(c04Scripts)
 	kit.Run(t, kit.Config{Property: "C04", Unit: "basic", Quick: n, Thorough: n, Exhaustive: true,
 		Rule: "hand-written in-domain histories (stale update after PostBind, delete between two permits, unreserve after partial bind, two-gang group with one gang short, no-node-fits in a strict group, once-satisfied with re-created pod, annotation-only PodGroup updates of group list / mode / policy with one event per PodGroup, degenerate gang-groups annotations, bind applied but reported failed) run through the same engine and oracles; every step names its pod; a step that is not applicable is a harness error, a Wait where the script expects Success ends the script (counted as converse miss)"},
 		func(c *kit.Case) {
 			sc := c04Scripts[c.K]
 			u := c04ScriptUniverse(c, sc)
+			u.ctxMode = sc.ctx
 			u.op("-", "script %q universe %s", sc.name, u.describe())
 			for i, st := range sc.steps {
 				key, arg, _ := strings.Cut(st.key, ">")
